@@ -86,7 +86,7 @@ def call(fn, *a, limit_s=60, **kw):
     A timeout is retried once with a much longer limit before it is reported."""
     st, v = _call(fn, *a, limit_s=limit_s, **kw)
     if st == "error" and str(v).startswith("Timeout"):
-        st, v = _call(fn, *a, limit_s=limit_s * 8 + 120, **kw)
+        st, v = _call(fn, *a, limit_s=limit_s * 4 + 60, **kw)
     return st, v
 
 
